@@ -1570,7 +1570,9 @@ FROM (
             return f"(LOWER(TRIM(CAST({expr} AS VARCHAR))) = 'true')"
 
         if target_type_str == "Integer":
-            if source_lower == "boolean":
+            # An Integer operand is already integral: going through DOUBLE would lose
+            # precision above 2^53.
+            if source_lower in ("boolean", "integer"):
                 return f"CAST({expr} AS {duckdb_type})"
             return f"CAST(TRUNC(CAST({expr} AS DOUBLE)) AS {duckdb_type})"
 
